@@ -96,6 +96,11 @@ def oracle_run(cfg):
         ok, msg = tol_close(yh[j].numpy(), rh[j], sc)
         if not ok:
             return dict(detail='level %d subbands: %s' % (j + 1, msg))
+    if cfg['seed'] % 3 == 0:
+        mk = lambda dt: (lambda a, m=DTCWTForward(biort=cfg['biort'], qshift=cfg['qshift'], J=cfg['J']).to(dt): m(a[0]))
+        msg = pow2_homog(mk, [torch.tensor(X)])
+        if msg:
+            return dict(detail=msg)
     return None
 
 
